@@ -107,7 +107,7 @@ func genC07(t *rapid.T) c07Case {
 			for _, cl := range tm.Classes {
 				classes[cl] = true
 			}
-		case kind == 2:
+		case kind == 2 || kind == 3 && rapid.Bool().Draw(t, "moremodules"):
 			s = c07GenModule(t)
 			classes["spec_in_several_files"] = true
 		case kind <= 3 || len(c07Corpus()) == 0:
@@ -116,6 +116,13 @@ func genC07(t *rapid.T) c07Case {
 			s = c07Spec{Path: pick(t, c07Corpus(), "corpus"), Kind: "corpus"}
 		}
 		c.Specs = append(c.Specs, s)
+	}
+	if classes["spec_in_several_files"] {
+		// the first line of a file is where a lexer state left over from another file shows: a specification
+		// whose first line is a multi-word application name goes with every module
+		name := pick(t, []string{"Payment Gateway Service", "Mx Front Door", "A B", "Order Entry 2"}, "victimname")
+		c.Specs = append(c.Specs, c07Spec{Text: name + " [~x]:\n    !type T:\n        id <: int\n    Ep: ...\n", Kind: "tmpl"})
+		k = len(c.Specs)
 	}
 	if rapid.IntRange(0, 2).Draw(t, "gc") != 0 {
 		c.GCRounds = rapid.IntRange(2, 12).Draw(t, "gcrounds")
@@ -191,7 +198,7 @@ func c07GenModule(t *rapid.T) c07Spec {
 		}
 		s.Files[n] = txt
 	}
-	if len(names) > 1 && rapid.Bool().Draw(t, "bundle") {
+	if len(names) > 1 && rapid.IntRange(0, 3).Draw(t, "bundle") != 0 {
 		var b strings.Builder
 		for _, n := range names {
 			if n != c.Root {
@@ -199,7 +206,7 @@ func c07GenModule(t *rapid.T) c07Spec {
 			}
 		}
 		bundle := b.String()
-		if rapid.IntRange(0, 2).Draw(t, "bundlenl") != 0 {
+		if rapid.IntRange(0, 3).Draw(t, "bundlenl") != 0 {
 			bundle = strings.TrimRight(bundle, "\n")
 		}
 		s.Files["bundle.sysl"] = bundle
@@ -633,7 +640,7 @@ var c07ProcProp = Define("C07", "processes",
 func TestC07(t *testing.T) {
 	checkKnown(t, "C07")
 	t.Run("concurrent", func(t *testing.T) {
-		q, th := 30, 150
+		q, th := 20, 120
 		if c07Race {
 			q, th = 5, 25
 		}
